@@ -1,10 +1,10 @@
 (** C12 -- no aliasing: caller arrays are never mutated or retained, outputs are copies; all read paths present the
     same elites in the same order.
     Model: Model/Alias.v (alias calculus + one straight-line program per public entry point and code path) and
-    Model/Store.v (read paths).  Proofs: Proofs/AliasSound.v, Proofs/AliasEnumA..D.v, Proofs/AliasProofs.v.
+    Model/Store.v (read paths).  Proofs: Proofs/AliasSound.v, Proofs/AliasEnumA..D.v, Proofs/AliasProofs.v, Proofs/AliasOut.v.
     Only statements closed by [exact] (or two lines of glue), non-vacuity Examples, Print Assumptions. *)
 From Coq Require Import List Arith Bool ZArith Lia.
-From PV Require Import Base.ListUtil Model.Store Proofs.StoreProofs Model.Alias Proofs.AliasSound Proofs.AliasProofs.
+From PV Require Import Base.ListUtil Model.Store Proofs.StoreProofs Model.Alias Proofs.AliasSound Proofs.AliasProofs Proofs.AliasEnumA Proofs.AliasOut.
 Import ListNotations.
 
 (** * The calculus: concrete effects are included in the abstract effects, for EVERY program, EVERY concrete state
@@ -57,6 +57,21 @@ Theorem C12_outputs_are_copies_or_readonly :
         exists x, lookup (c_self (crun f (prog e v n) (c_init la h))) fl = Some x /\
                   content (write_through r z h') x = content h' x).
 Proof. exact ep_outputs_copies. Qed.
+
+(** ... at full strength for what stores and archives (and the visualisation functions) hand out -- add feedback,
+    retrieve, data, iteration entries, sample_elites, best_elite, index_of, scores: a writable returned value lives in
+    NO buffer reachable from self (store buffers, the cached best-elite record, centroids, boundaries, the sliding
+    buffer, ...), so a write through it, on any later heap, changes nothing observable through self.  [out_eps] = the
+    32 store / archive / operator-constructor entry points + the 2 visualisation ones; the emitters' ask results are
+    not in the property's list (see Proofs/AliasOut.v). *)
+Theorem C12_outputs_detached_from_self :
+  forall (f : nat -> list Z -> Z) (e : ep) (n v : nat) (la : list layout) (h : list Z),
+  In e out_eps -> In n (arities e) -> v < n_variants e -> length la = n -> length h = n_internal + n ->
+  forall r, In r (c_ret (crun f (prog e v n) (c_init la h))) ->
+    (vw r = false \/ ~ In (vbuf r) (bufs (c_self (crun f (prog e v n) (c_init la h))))) /\
+    forall h' z, observe (c_self (crun f (prog e v n) (c_init la h))) (write_through r z h')
+                 = observe (c_self (crun f (prog e v n) (c_init la h))) h'.
+Proof. exact ep_outputs_detached. Qed.
 
 (** * Read paths (Model/Store.v): every way of reading presents [map (elite_of s) (olist s)] -- the same elites in the
     same order (occupied_list order) with the fields of one and the same stored row.
@@ -141,6 +156,12 @@ Example C12_refuted_asis_F15_ctor_args :            (* np.asarray(custom_centroi
   arg_retained (asis_effects GaussianCtor 1 3 [PyList; NonContiguous; PyList]) 1 = true.
 Proof. vm_compute. repeat split. Qed.
 
+Example C12_refuted_asis_FC12d_best_elite :         (* best_elite handed out the archive's own cached record *)
+  In BestElite out_eps /\
+  rw_self (asis_effects BestElite 0 0 []) = true /\ no_rw_self (asis_effects BestElite 0 0 []) = false /\
+  length (a_ret (arun (prog BestElite 0 0) (a_init []))) = 1 /\ no_rw_self (arun (prog BestElite 0 0) (a_init [])) = true.
+Proof. vm_compute. repeat split. auto 20. Qed.
+
 (** read paths on a concrete store: capacity 4, writes to cells 2, 0, 2 (overwrite), rows are ids; three fields *)
 Example C12_read_paths_nonvacuous :
   let proj := fun (fl : nat) (r : nat) => match fl with 0 => [r; r + 1] | _ => [10 * r] end in
@@ -159,6 +180,7 @@ Print Assumptions alias_sound.
 Print Assumptions C12_caller_arrays_not_mutated.
 Print Assumptions C12_caller_arrays_not_retained.
 Print Assumptions C12_outputs_are_copies_or_readonly.
+Print Assumptions C12_outputs_detached_from_self.
 Print Assumptions C12_read_paths_agree.
 Print Assumptions C12_pandas_columns.
 Print Assumptions C12_elites_are_the_stored_rows.
